@@ -17,16 +17,53 @@ NAMES = [None, "name", "", "other name", "é"]
 CLASSES = ["tuple", "reference", "namable", "named"]
 
 
-def build(c, p, i, n):
+def build(c, p, i, n, via="direct"):
+    """The reference of class `c` with the given fields, obtained the way `via` says.  However a reference came to
+    be -- constructed, copied with an update from another one that has already been printed / hashed / sorted,
+    validated from a dict, converted from another class, deep-copied, pickled -- it is the same value."""
+    import copy as _copy
+    import pickle
+
     from curies import NamableReference, NamedReference, Reference, ReferenceTuple
 
-    if c == 0:
-        return ReferenceTuple(p, i)
-    if c == 1:
-        return Reference(prefix=p, identifier=i)
+    cls = [ReferenceTuple, Reference, NamableReference, NamedReference][c]
+    kw = {"prefix": p, "identifier": i}
     if c == 2:
-        return NamableReference(prefix=p, identifier=i, name=n)
-    return NamedReference(prefix=p, identifier=i, name=n if n is not None else "n")
+        kw["name"] = n
+    if c == 3:
+        kw["name"] = n if n is not None else "n"
+    if c == 0:
+        o = ReferenceTuple(p, i)
+        if via == "copy_update":
+            seed = ReferenceTuple(p + "x", "y" + i)
+            hash(seed), seed.curie, sorted([seed, seed])
+            o = seed._replace(prefix=p, identifier=i)
+        elif via in ("deepcopy", "pickle"):
+            o = _copy.deepcopy(o) if via == "deepcopy" else pickle.loads(pickle.dumps(o))
+        return o
+    if via == "copy_update":
+        seed = cls(**dict(kw, prefix=p + "x", identifier="y" + i))
+        seed.pair, seed.curie, hash(seed), sorted([seed, seed]), {seed}, seed == seed
+        return seed.model_copy(update={"prefix": p, "identifier": i})
+    if via == "copy_update_one":
+        seed = cls(**dict(kw, identifier="y" + i))
+        seed.pair, seed.curie, hash(seed), sorted([seed, seed]), {seed}
+        return seed.model_copy(update={"identifier": i})
+    if via == "validate_dict":
+        return cls.model_validate(kw)
+    if via == "from_reference" and c == 1:
+        return Reference.from_reference(NamableReference(prefix=p, identifier=i, name="other"))
+    o = cls(**kw)
+    if via == "deepcopy":
+        o.pair, hash(o)
+        return _copy.deepcopy(o)
+    if via == "pickle":
+        o.pair, hash(o)
+        return pickle.loads(pickle.dumps(o))
+    return o
+
+
+VIAS = ["direct", "direct", "direct", "copy_update", "copy_update_one", "validate_dict", "from_reference", "deepcopy", "pickle"]
 
 
 class C15:
@@ -53,7 +90,8 @@ class C15:
         pool_i = rng.sample(IDENTS, 3)
         refs = []
         for _ in range(4):
-            refs.append({"c": rng.randrange(4), "p": rng.choice(pool_p), "i": rng.choice(pool_i), "n": rng.choice(NAMES)})
+            refs.append({"c": rng.randrange(4), "p": rng.choice(pool_p), "i": rng.choice(pool_i), "n": rng.choice(NAMES),
+                         "via": rng.choice(VIAS)})
         for r in refs:
             if r["c"] == 3 and r["n"] is None:
                 r["n"] = "n"
@@ -61,6 +99,11 @@ class C15:
                 r["n"] = None
         conv = [rec("GO", "http://go/", ["go"]), rec("CHEBI", "http://chebi/"), rec("", "http://default/"),
                 rec("doi", "https://doi.org/", ["DOI"])]
+        r_ = rng.random()
+        if r_ < 0.15:
+            conv = []               # a converter without records: every prefix is unknown
+        elif r_ < 0.3:
+            conv = [rng.choice(conv)]
         parse = []
         for r in refs:
             s = r["p"] + ":" + r["i"]
@@ -78,7 +121,7 @@ class C15:
         from curies import Converter, NamableReference, NamedReference, Reference, ReferenceTuple
         from curies.triples import Triple, read_triples, write_triples
 
-        objs = [build(r["c"], r["p"], r["i"], r["n"]) for r in case["refs"]]
+        objs = [build(r["c"], r["p"], r["i"], r["n"], r.get("via", "direct")) for r in case["refs"]]
         conv = Converter([common.dec_record(r) for r in case["conv"]])
         out = {"curies": [cps(o.curie) for o in objs]}
         out["eq"] = [[bool(a == b) for b in objs] for a in objs]
@@ -216,7 +259,7 @@ class C15:
                     fails.append(f"NamedReference.from_curie({s!r}, None) gives {got}, expected a validation error")
                 continue
             if pz["conv"] and pz["c"] != 0:
-                known = {"GO": "GO", "go": "GO", "CHEBI": "CHEBI", "": "", "doi": "doi", "DOI": "doi"}
+                known = {uncps(x): uncps(r_["p"]) for r_ in case["conv"] for x in [r_["p"]] + r_["ps"]}
                 if p in known:
                     if got.get("p") != cps(known[p]) or got.get("i") != cps(i):
                         fails.append(f"{CLASSES[pz['c']]}.from_curie({s!r}, converter) gives {got}, expected prefix {known[p]!r}")
@@ -246,7 +289,7 @@ class C15:
         return len(case["refs"]) ** 2 + len(case["parse"])
 
     def sample(self, case, impl):
-        return [f"{CLASSES[r['c']]}({r['p']!r}, {r['i']!r}, name={r['n']!r}) -> curie {uncps(c)!r}"
+        return [f"{CLASSES[r['c']]}({r['p']!r}, {r['i']!r}, name={r['n']!r}) [obtained via {r.get('via', 'direct')}] -> curie {uncps(c)!r}"
                 for r, c in zip(case["refs"], impl["curies"])]
 
     def readable(self, case, impl):
